@@ -1183,8 +1183,6 @@ def replay(chk, path):
         elif kind == "send":
             for tr in (TRANSPORTS if c.get("transport") == "both" else (c["transport"],)):
                 mc = dict(c["message"])
-                if isinstance(rp.get("impl"), list) and mc.get("expiration") is None and "expiration_repr" in c:
-                    mc["expiration"] = float(c["expiration_repr"])
                 got, tgt = impl_send(Layer(tr), rec, c["target"], mc)
                 print(tr, "impl :", got)
                 ep = expiry_proto(mc["expiration"])
